@@ -891,3 +891,85 @@ func (e *Engine) closedImplementers(it types.Type, m *types.Func) []*ssa.Functio
 	e.closedWorld[key] = out
 	return out
 }
+
+// havocClosureEffects havocs every heap location the closure (and the functions
+// it calls, as far as they are visible and small) may write.
+func (e *Engine) havocClosureEffects(fr *Frame, st *State, fv *FuncSV, seen map[*ssa.Function]bool, depth int) {
+	fn := fv.Fn
+	if seen[fn] || depth > 4 {
+		return
+	}
+	seen[fn] = true
+	for _, b := range fn.Blocks {
+		for _, in := range b.Instrs {
+			switch v := in.(type) {
+			case *ssa.Store:
+				root := v.Addr
+				var fieldPath []*ssa.FieldAddr
+				for {
+					if fa, ok := root.(*ssa.FieldAddr); ok {
+						fieldPath = append(fieldPath, fa)
+						root = fa.X
+						continue
+					}
+					if ia, ok := root.(*ssa.IndexAddr); ok {
+						root = ia.X
+						continue
+					}
+					break
+				}
+				switch r := root.(type) {
+				case *ssa.FreeVar:
+					// captured variable: its cell
+					idx := -1
+					for i, f := range fn.FreeVars {
+						if f == r {
+							idx = i
+						}
+					}
+					if idx >= 0 && idx < len(fv.Bind) {
+						if p, ok := fv.Bind[idx].(*PtrSV); ok {
+							t := r.Type().(*types.Pointer).Elem()
+							if p.Kind == pkLocal {
+								st.cells[p.Cell] = e.freshSV(p.Cell.Typ, "cb_"+p.Cell.Name, st.pc, st)
+							} else if len(fieldPath) == 0 {
+								e.storeRaw(st, p, t, e.freshSV(t, "cb", st.pc, st))
+							} else {
+								panic(engErr("callback writes a field of a captured variable: unsupported"))
+							}
+						}
+					}
+				case *ssa.Alloc:
+					// local of the callback: no outside effect
+				default:
+					// a field of something reachable from a parameter or a loaded pointer:
+					// havoc the whole field map(s)
+					if len(fieldPath) == 0 {
+						panic(engErr("callback stores through an opaque pointer: unsupported (" + v.String() + ")"))
+					}
+					outer := fieldPath[len(fieldPath)-1]
+					stT := outer.X.Type().Underlying().(*types.Pointer).Elem()
+					var path []pathEl
+					for i := len(fieldPath) - 1; i >= 0; i-- {
+						path = append(path, pathEl{field: fieldPath[i].Field})
+					}
+					ft, suffix := e.typeAtPath(stT, path)
+					for _, l := range e.leaves(ft) {
+						name, srt, _ := e.heapMapFor(stT, suffix+l.Suffix, l.Sort)
+						e.heapGet(st, name, srt)
+						e.heapSet(st, name, srt, e.vc.declare("cbH_"+name, srt))
+					}
+				}
+			case ssa.CallInstruction:
+				if callee := v.Common().StaticCallee(); callee != nil && len(callee.Blocks) > 0 {
+					if _, isIntr := intrinsics[funcKey(callee)]; !isIntr {
+						if c, ok := e.db.Funcs[funcKey(callee)]; ok && len(c.Modifies) == 0 {
+							continue
+						}
+						e.havocClosureEffects(fr, st, &FuncSV{Fn: callee}, seen, depth+1)
+					}
+				}
+			}
+		}
+	}
+}
